@@ -23,7 +23,8 @@ Both directions of the refactoring "explicit loop <-> comprehension" therefore m
 Three smaller idioms are brought to one spelling as well: `x = np.empty(s, d); x[:] = v` is `x = np.full(s, v, dtype=d)`;
 `if k not in d: d[k] = c` followed by `d[k] += w` is `d[k] = d.get(k, c) + w`; `while t: if c: break; ...` is
 `while t and not c: ...`; a search loop written with a flag (`f = True; while f: if c: X; f = False else: S`) is `while not c: S` followed by `X`;
-`if k in d: t = d[k] else: t = c` is `t = d.get(k, c)`; an object array filled by index that is only iterated afterwards is the list of its elements."""
+`if k in d: t = d[k] else: t = c` is `t = d.get(k, c)`; an object array filled by index that is only iterated afterwards is the list of its elements;
+a `while` that counts a variable up to a bound (`j = a; while j < n and c: ...; j += 1`, j dead afterwards) is `for j in range(a, n): if not c: break; ...`."""
 from __future__ import annotations
 import ast
 import copy
@@ -278,6 +279,65 @@ def _leading_break(loop):
     return True
 
 
+def _counter_while(init, loop, rest):
+    """j = A                                  for j in range(A, N):
+       while j < N [and C]:           ==>         [if not C: break]
+           BODY                                   BODY
+           j += 1
+    when j is stored nowhere else in the loop, the loop has no `continue` and no `else`, N is a name, constant, attribute or len() of a name
+    that the body does not assign, and j is not read after the loop before it is assigned again"""
+    if not (isinstance(init, ast.Assign) and len(init.targets) == 1 and isinstance(init.targets[0], ast.Name)):
+        return None
+    j = init.targets[0].id
+    if not (isinstance(loop, ast.While) and not loop.orelse and len(loop.body) >= 2):
+        return None
+    test, others = loop.test, []
+    if isinstance(test, ast.BoolOp) and isinstance(test.op, ast.And):
+        test, others = test.values[0], test.values[1:]
+    if not (isinstance(test, ast.Compare) and len(test.ops) == 1 and isinstance(test.ops[0], ast.Lt)
+            and isinstance(test.left, ast.Name) and test.left.id == j):
+        return None
+    bound = test.comparators[0]
+    core = bound.args[0] if (isinstance(bound, ast.Call) and isinstance(bound.func, ast.Name) and bound.func.id == 'len'
+                             and len(bound.args) == 1 and not bound.keywords) else bound
+    while isinstance(core, ast.Attribute):
+        core = core.value
+    if not isinstance(core, (ast.Name, ast.Constant)):
+        return None
+    last = loop.body[-1]
+    if not (isinstance(last, ast.AugAssign) and isinstance(last.op, ast.Add) and isinstance(last.target, ast.Name) and last.target.id == j
+            and isinstance(last.value, ast.Constant) and last.value.value == 1 and type(last.value.value) is int):
+        return None
+    body = loop.body[:-1]
+    stored = {n.id for b in body for n in ast.walk(b) if isinstance(n, ast.Name) and isinstance(n.ctx, (ast.Store, ast.Del))}
+    if j in stored or (isinstance(core, ast.Name) and core.id in stored) or _refs(init.value, j):
+        return None
+
+    def has_continue(stmts):
+        for st in stmts:
+            if isinstance(st, ast.Continue):
+                return True
+            if isinstance(st, (ast.For, ast.While, ast.FunctionDef)):
+                continue            # a continue in there belongs to the inner loop
+            for fld in ('body', 'orelse', 'finalbody'):
+                if has_continue(getattr(st, fld, []) or []):
+                    return True
+            if isinstance(st, ast.Try) and any(has_continue(h.body) for h in st.handlers):
+                return True
+        return False
+    if has_continue(body) or _live_after(j, rest):
+        return None
+    new_body = list(body)
+    if others:
+        cond = others[0] if len(others) == 1 else ast.BoolOp(op=ast.And(), values=list(others))
+        new_body.insert(0, ast.If(test=ast.UnaryOp(op=ast.Not(), operand=cond), body=[ast.Break()], orelse=[]))
+    rng = ast.Call(func=ast.Name(id='range', ctx=ast.Load()), args=[init.value, bound], keywords=[])
+    new = ast.For(target=ast.Name(id=j, ctx=ast.Store()), iter=rng, body=new_body, orelse=[], type_comment=None)
+    ast.copy_location(new, loop)
+    ast.fix_missing_locations(new)
+    return new
+
+
 def _refs(node, name):
     return any(isinstance(n, ast.Name) and n.id == name for n in ast.walk(node))
 
@@ -444,6 +504,12 @@ def normalise_function(fn: ast.FunctionDef, is_pure_call=None):
                     h.body = block(h.body)
             if isinstance(st, ast.While) and _leading_break(st):
                 count[0] += 1
+            if res and isinstance(st, ast.While):
+                cw = _counter_while(res[-1], st, stmts[i + 1:])
+                if cw is not None:
+                    res.pop()
+                    st = cw
+                    count[0] += 1
             if _full_keyword(st):
                 count[0] += 1
             md = _membership_default(st)
